@@ -1,6 +1,7 @@
 import Driver.Common
 import Driver.C13
 import Rpki.Model.Slurm
+import Rpki.Model.JsonText
 namespace Driver.C15
 open Driver Rpki.Slurm Rpki.Prefix
 
@@ -136,6 +137,24 @@ def handle (toks : List String) (impl : String) : Verdict :=
             some "serialising the accepted file and parsing it back does not give an equal file"
           else none
         { model := some s!"ok {out}", oracle := o }
+      | none => { model := some "err" }
+    | none => badOp "tree"
+  | ["jtext", t] =>
+    match parseTree t with
+    | some j =>
+      match SlurmFile.fromJson j with
+      | some f =>
+        let text := Rpki.JsonText.fileText f
+        -- oracle: the library's own text, read by the reference reader with typed leaves, is the file
+        let o : Option String :=
+          if impl.startsWith "ok " then
+            match parseHexN (impl.drop 3).toString with
+            | some b => match Rpki.JsonText.readFile b with
+              | some f' => if f' = f then none else some "the written text denotes a different file"
+              | none => some "the written text is not read back as a file"
+            | none => some "unparseable result"
+          else none
+        { model := some s!"ok {hexN text}", oracle := o }
       | none => { model := some "err" }
     | none => badOp "tree"
   | ["drop", ft, pt] =>
